@@ -149,7 +149,7 @@ impl Compiler {
         self.builder.set_span(block.span);
 
         // Push a new scope
-        self.builder.emit(Op::PushScope);
+        self.emit_push_scope();
 
         if block.body.is_empty() && self.track_completion {
             // Empty block has completion value undefined
@@ -162,7 +162,7 @@ impl Compiler {
         }
 
         // Pop scope
-        self.builder.emit(Op::PopScope);
+        self.emit_pop_scope();
 
         Ok(())
     }
@@ -334,7 +334,7 @@ impl Compiler {
     /// Compile for loop without per-iteration bindings (var or expression init)
     fn compile_for_simple(&mut self, for_stmt: &ForStatement) -> Result<(), JsError> {
         // Push scope for loop variable
-        self.builder.emit(Op::PushScope);
+        self.emit_push_scope();
 
         // Compile init
         if let Some(init) = &for_stmt.init {
@@ -393,7 +393,7 @@ impl Compiler {
         self.pop_loop();
 
         // Pop scope
-        self.builder.emit(Op::PopScope);
+        self.emit_pop_scope();
 
         Ok(())
     }
@@ -418,7 +418,7 @@ impl Compiler {
         }
 
         // Push outer scope for the init
-        self.builder.emit(Op::PushScope);
+        self.emit_push_scope();
 
         // Compile init (first iteration's values)
         if let Some(ForInit::Variable(decl)) = &for_stmt.init {
@@ -435,13 +435,13 @@ impl Compiler {
         }
 
         // Pop the init scope (we'll create per-iteration scopes in the loop)
-        self.builder.emit(Op::PopScope);
+        self.emit_pop_scope();
 
         // Loop start - push per-iteration scope and copy values from registers
         let loop_start = self.builder.current_offset();
 
         // Push per-iteration scope
-        self.builder.emit(Op::PushScope);
+        self.emit_push_scope();
 
         // Declare and initialize vars from registers (these are the values closures will capture)
         for (name, reg) in &var_regs {
@@ -455,6 +455,8 @@ impl Compiler {
 
         // Push loop context
         self.push_loop(None);
+        // `break` lands after the per-iteration scope has been popped
+        self.set_break_scope_depth_outward(1);
 
         // Compile test (if any)
         let jump_to_end = if let Some(test) = &for_stmt.test {
@@ -501,7 +503,7 @@ impl Compiler {
         }
 
         // Pop per-iteration scope
-        self.builder.emit(Op::PopScope);
+        self.emit_pop_scope();
 
         // Jump back to loop start
         self.builder.emit_jump_to(loop_start);
@@ -512,7 +514,7 @@ impl Compiler {
         }
 
         // If jumping out due to test failure, need to pop scope
-        self.builder.emit(Op::PopScope);
+        self.builder.emit(Op::PopScope); // alternate path: depth already accounted for
 
         // Pop loop context
         self.pop_loop();
@@ -530,7 +532,7 @@ impl Compiler {
         self.builder.set_span(for_in.span);
 
         // Push scope
-        self.builder.emit(Op::PushScope);
+        self.emit_push_scope();
 
         // Compile the right side (object to iterate)
         let obj_reg = self.builder.alloc_register()?;
@@ -595,7 +597,7 @@ impl Compiler {
         self.builder.free_register(obj_reg);
 
         // Pop scope
-        self.builder.emit(Op::PopScope);
+        self.emit_pop_scope();
 
         Ok(())
     }
@@ -605,7 +607,7 @@ impl Compiler {
         self.builder.set_span(for_of.span);
 
         // Push scope
-        self.builder.emit(Op::PushScope);
+        self.emit_push_scope();
 
         // Compile the right side (iterable)
         let obj_reg = self.builder.alloc_register()?;
@@ -717,7 +719,7 @@ impl Compiler {
         self.builder.free_register(obj_reg);
 
         // Pop scope
-        self.builder.emit(Op::PopScope);
+        self.emit_pop_scope();
 
         Ok(())
     }
@@ -753,8 +755,8 @@ impl Compiler {
         let disc_reg = self.builder.alloc_register()?;
         self.compile_expression(&switch_stmt.discriminant, disc_reg)?;
 
-        // Push loop context for break (switch uses the same break mechanism)
-        self.push_loop(None);
+        // Push break context (switch uses the same break mechanism; `continue` skips it)
+        self.push_switch();
 
         // Collect case targets
         let mut case_jumps: Vec<super::JumpPlaceholder> = Vec::new();
@@ -920,7 +922,7 @@ impl Compiler {
             self.builder.set_span(handler.span);
 
             // Push scope for catch variable
-            self.builder.emit(Op::PushScope);
+            self.emit_push_scope();
 
             // Bind exception to parameter
             if let Some(param) = &handler.param {
@@ -941,7 +943,7 @@ impl Compiler {
             }
 
             // Pop scope
-            self.builder.emit(Op::PopScope);
+            self.emit_pop_scope();
         }
 
         // Jump to finally (if exists) or end
@@ -1003,8 +1005,8 @@ impl Compiler {
     fn compile_labeled(&mut self, labeled: &LabeledStatement) -> Result<(), JsError> {
         self.builder.set_span(labeled.span);
 
-        // Push loop context with label
-        self.push_loop(Some(labeled.label.name.cheap_clone()));
+        // Push a label context (only `break label` / `continue label` can target it)
+        self.push_label(labeled.label.name.cheap_clone());
 
         // Compile the body
         self.compile_statement_impl(&labeled.body)?;
@@ -2789,7 +2791,7 @@ impl Compiler {
         self.builder.free_register(existing_reg);
 
         // Push a new scope for the namespace body
-        self.builder.emit(Op::PushScope);
+        self.emit_push_scope();
 
         // Compile the namespace body statements
         for stmt in decl.body.iter() {
@@ -2805,7 +2807,7 @@ impl Compiler {
         }
 
         // Pop the namespace scope
-        self.builder.emit(Op::PopScope);
+        self.emit_pop_scope();
 
         self.builder.free_register(ns_obj);
         Ok(())
